@@ -44,6 +44,10 @@ def cases(tier):
                 if ssm == "dense" and d == 2 and op in ("logpdf", "rms"):
                     continue        # generic 4x4 factor: not decided within the thorough budget
                 out.append(f"{ssm}/{op}/n{n}k{k}d{d}")
+        # rank-deficient factors: first coefficient exact (zero rows in the factor => zero columns in the stacked matrix)
+        nn, kk, dd = sizes[ssm][0]
+        out.append(f"{ssm}/marginalise_sing/n{nn}k{nn}d{dd}")
+        out.append(f"{ssm}/revert_sing/n{nn}k{kk}d{dd}")
         out.append(f"{ssm}/to_derivative0/n2k1d2")
         out.append(f"{ssm}/to_derivative1/n2k1d2")
     return sorted(set(out))
@@ -60,6 +64,21 @@ def build(case_id):
     ssm, op, n, k, d = parse(case_id)
     Cond, Normal = cm.impl(ssm)
     from probdiffeq.backend import linalg
+    singular = op.endswith("_sing")       # first Taylor coefficient known exactly, the others uncertain and correlated
+    if singular:
+        op = op[:-len("_sing")]
+    _sym_rv = cm.sym_rv
+
+    def sym_rv_maybe_singular(dom, ssm_, n_, d_, pfx, **kw):
+        m, L = _sym_rv(dom, ssm_, n_, d_, pfx, **kw)
+        if singular:
+            if ssm_ == "dense":
+                L[:d_, :] = Poly()
+            elif ssm_ == "isotropic":
+                L[0, :] = Poly()
+            else:
+                L[:, 0, :] = Poly()
+        return m, L
 
     def mkc(A, b, Q, tl, to):
         return Cond(A, Normal(b, Q, None), to_latent=tl, to_observed=to)
@@ -79,7 +98,7 @@ def build(case_id):
     elif op == "marginalise":
         def make(dom):
             c = cm.sym_cond(dom, ssm, n, k, d, "c")
-            rv = cm.sym_rv(dom, ssm, n, d, "r")
+            rv = sym_rv_maybe_singular(dom, ssm, n, d, "r")
             return (lambda c, rv: mkc(*c).marginalise(Normal(*rv, None))), (c, rv)
 
         def goals(args, out, orc):
@@ -91,7 +110,7 @@ def build(case_id):
     elif op == "revert":
         def make(dom):
             c = cm.sym_cond(dom, ssm, n, k, d, "c")
-            rv = cm.sym_rv(dom, ssm, n, d, "r")
+            rv = sym_rv_maybe_singular(dom, ssm, n, d, "r")
 
             def fn(c, rv):
                 obs, bw = mkc(*c).revert(Normal(*rv, None), solve_triu=linalg.solve_triu)
